@@ -341,6 +341,7 @@ def coverage_case(cid="coverage"):
         S("N32", [("B24", 1, "inner"), ("S8", 1, "tail")]),
         S("H24", [("uint32", 1, "a"), ("uint32", 1, "b"), ("IPeer", 1, "o")]),
         S("H48", [("uint64", 1, "a"), ("IPeer", 1, "p"), ("uint64", 1, "b"), ("interface", 1, "q")]),
+        S("HN32", [("IPeer", 1, "owner"), ("S8", 1, "created"), ("uint64", 1, "z")]),
         {"k": "interface", "name": "ICov", "base": None, "members": [
             {"k": "error", "name": "COV_FAIL"},
             M("none", []),
@@ -361,6 +362,8 @@ def coverage_case(cid="coverage"):
             M("held_out", [P("out", "H24", "h")]),
             M("held2_in", [P("in", "H48", "h")]),
             M("held2_out", [P("out", "H48", "h")]),
+            M("held3_in", [P("in", "HN32", "h")]),
+            M("held3_out", [P("out", "HN32", "h")]),
             M("mix", [P("in", "buffer", "a"), P("in", "uint32", "x"), P("in", "IPeer", "p"), P("out", "uint64", "y"), P("out", "buffer", "b"), P("out", "IPeer", "q")]),
             M("opt", [P("in", "uint32", "x"), P("out", "uint32", "y")], optional=True),
         ]},
